@@ -215,4 +215,31 @@ theorem outcome_of_err {p : Parser (Except Fault Map)} {b : Bytes} {e : Err} (h 
     outcome p b = .err e := by
   unfold outcome; rw [run_of_err h]
 
+/-! ## shape and prefix strictness, once for both readers -/
+
+theorem beginning_shape {xs r : Bytes} {m : Map} (h : BeginOk xs m r) :
+    ∃ k, k < 32 ∧ m.width = 2 ^ k ∧ m.tiles.length = m.width * m.height ∧ m.height < W32 ∧ m.width * m.height < W32 := by
+  obtain ⟨hd, hh, _, hok, hb⟩ := h.hd
+  obtain ⟨_, _, _, hlt, _, _⟩ := pHeader_ok hh
+  obtain ⟨hlg, hprod, _⟩ := dims_of_ok hlt hok
+  unfold pBody at hb
+  obtain ⟨tiles, r1, ht, hb⟩ := bind_ok hb
+  obtain ⟨clip, r2, _, hb⟩ := bind_ok hb
+  obtain ⟨srcs, r3, _, hb⟩ := bind_ok hb
+  obtain ⟨mk, r4, _, hb⟩ := bind_ok hb
+  obtain ⟨_, r5, _, hb⟩ := bind_ok hb
+  obtain ⟨maps, r6, _, hb⟩ := bind_ok hb
+  obtain ⟨ters, r7, _, hb⟩ := bind_ok hb
+  obtain ⟨rfl, _⟩ := pure_ok hb
+  have hl := many_ok_length _ ht
+  refine ⟨hd.lg, hlg, rfl, ?_, hlt, ?_⟩
+  · simp only [hl]; exact Nat.mul_comm _ _
+  · simp only []; rw [Nat.mul_comm]; exact hprod
+
+theorem prefix_strict_of_local {p : Parser (Except Fault Map)} (hp : Local p) (b : Bytes) (m : Map) (n : Nat)
+    (h : outcome p b = .ok m n) (k : Nat) (hk : k < n) : ∃ e, outcome p (b.take k) = .err e := by
+  obtain ⟨r, hpb, rfl⟩ := outcome_ok h
+  obtain ⟨e, he⟩ := hp.prefix_refused hpb k hk
+  exact ⟨e, outcome_of_err he⟩
+
 end Op2.Map
